@@ -69,6 +69,19 @@ def owner_of(fn):
     return p.rsplit("::", 1)[0] if "::" in p else p
 
 
+_FACTS = [None]
+
+
+def _call_name(path, short):
+    """name of a callee inside a site key: a crate-private function can be renamed without any change of behaviour or API, so
+    it is named by its role-free signature class, not by its identifier"""
+    F = _FACTS[0]
+    g = F.fns.get(path) if F is not None else None
+    if g is not None and g.d.get("vis") == "restricted" and g.kind in ("Fn", "AssocFn"):
+        return "private-fn->" + g.local_ty(0)
+    return short
+
+
 def producer_of(t):
     """short description of what produced the value that is unwrapped / indexed."""
     s = P.strip(t, calls=False)
@@ -104,7 +117,7 @@ def coarse(t):
             return "field-of-call:" + b[1].rsplit("::", 1)[-1]
         return "field"
     if s[0] == "call":
-        return "call:" + "::".join(s[1].replace("<", "").replace(">", "").rsplit("::", 2)[-2:])
+        return "call:" + _call_name(s[1], "::".join(s[1].replace("<", "").replace(">", "").rsplit("::", 2)[-2:]))
     if s[0] in ("index", "cindex"):
         return "elem-of-" + coarse(s[1])
     if s[0] == "phi":
@@ -126,13 +139,39 @@ def coarse2(t):
     if s[0] in ("field", "variant"):
         return "field"
     if s[0] == "call":
-        return "call:" + s[1].rsplit("::", 1)[-1]
+        return "call:" + _call_name(s[1], s[1].rsplit("::", 1)[-1])
     if s[0] in ("index", "cindex"):
         return "elem"
     return "expr"
 
 
+def _asserted_relation(fn, pr, bi):
+    """`Op(classA,classB)` of the condition whose failure leads to panic block bi (its only predecessor is a bool switch)"""
+    from . import idioms as I_
+    preds = [p for p in fn.cfg.preds[bi] if p in fn.cfg.reachable]
+    if len(preds) != 1:
+        return None
+    pb = preds[0]
+    t = fn.blocks[pb]["term"]
+    if t["k"] != "switch" or t["ty"] != "bool":
+        return None
+    vals = [v for v, _ in t["arms"]]
+    term = pr.operand(t["on"])
+    for lab, tgt in fn.cfg.succ_edges[pb]:
+        if tgt != bi:
+            continue
+        truth = I_.edge_truth(term, lab, vals)
+        if truth is None:
+            return None
+        n = I_.norm_rel(term, not truth)      # the relation that holds when the assertion passes
+        if n is None or n[0] == "call":
+            return None
+        return f"{n[0]}({coarse2(n[1])},{coarse2(n[2])})"
+    return None
+
+
 def sites_of(F, fn):
+    _FACTS[0] = F
     pr = P.Prov(fn)
     out = []
     for bi in sorted(fn.cfg.reachable):
@@ -173,7 +212,14 @@ def sites_of(F, fn):
                 msg = ""
                 if args and args[0][0] == "str":
                     msg = args[0][1][:40]
-                out.append(Site(fn, bi, "panic-call", msg.replace(" ", "_"), blk["line"], {"args": args}))
+                detail = msg.replace(" ", "_")
+                if msg.startswith("assertion failed"):
+                    # `assert!(a op b)`: the message is source text (changes with every rename); key the site by the
+                    # asserted relation over operand classes instead
+                    rel = _asserted_relation(fn, pr, bi)
+                    if rel is not None:
+                        detail = "assert:" + rel
+                out.append(Site(fn, bi, "panic-call", detail, blk["line"], {"args": args}))
                 continue
             if name in UNWRAPS and (path.startswith("std::option::Option") or path.startswith("std::result::Result")):
                 prod = producer_of(args[0]) if args else "?"
